@@ -384,9 +384,13 @@ func (p *path) addRule(
 	switch rule.ResponseBody {
 	case "":
 	default:
-		m.resp = fieldPath(fieldDescs, strings.Split(rule.Body, ".")...)
+		m.resp = fieldPath(desc.Output().Fields(), strings.Split(rule.ResponseBody, ".")...)
 		if m.resp == nil {
 			return fmt.Errorf("response body field error %v", rule.ResponseBody)
+		}
+		// The reply is walked with Mutable(fd).Message(): only a message field can be selected.
+		if fd := m.resp[len(m.resp)-1]; fd.Message() == nil || fd.IsList() || fd.IsMap() {
+			return fmt.Errorf("response body field is not a message %v", rule.ResponseBody)
 		}
 	}
 
